@@ -104,6 +104,23 @@ def run(ctx):
     # ------------------------------------------------ adjust(): clamp then align then write
     tick = ctx.fn1("Oomd::Senpai::tick")
     adj = [l for l in P.lambdas_in(tick) if l.calls("Senpai::writeMemhigh")]
+    # stale limits: whatever drives the limit from the recorded state runs only where memory.high was found to MATCH the recorded limit
+    # (a cgroup that was re-created, or whose limit somebody else changed, is re-initialised first)
+    mh = locals_receiving(tick, r"^this->readMemhigh\(")
+    if len(mh) == 1 and len(adj) == 1:
+        _, holder = None, None
+        from ..inline import closure_holder
+        _, holder = closure_holder(P, adj[0])
+        MATCH = ("(*%s == state.limit)" % mh[0], "(state.limit == *%s)" % mh[0], "(%s.value() == state.limit)" % mh[0], "(state.limit == %s.value())" % mh[0])
+        ft = Flow(P, tick, cg=cg, edge_tokens=lambda k, p: ["matched"] if (k in MATCH and p is True) else None)
+        sites = [i for i in tick.calls() if tick.nodes[i].get("op") == "()" and holder and tick.text(tick.nodes[i].get("recv", -1)) == holder]
+        sites += [w for w in field_writes(tick, "cumulative") + field_writes(tick, "last_total")]
+        ctx.counters["state_driven_sites_in_tick"] = len(sites)
+        for i in sites:
+            ctx.check(ft.must(i, "matched"), "tick:recorded-state-used-only-if-it-matches:%d" % tick.nodes[i].get("line", 0), "passed_edge", tick.loc(i),
+                      "the recorded state is used only after memory.high was found equal to the recorded limit",
+                      "%s runs without the 'memory.high == recorded limit' test having passed: for a cgroup that was removed and re-created (or whose limit was changed "
+                      "from outside) the new limit is derived from the dead cgroup's state instead of being reset to the current usage" % tick.text(i)[:50], witness_path(tick, ft, i))
     if len(adj) != 1:
         ctx.violation("adjust-closure", "anchor", tick.loc(), "no single closure in Senpai::tick writes memory.high")
     else:
